@@ -76,6 +76,15 @@ def handle (op : String) (j : Json) : Except String Json :=
       cur := cur.bind (scale f)
       outs := outs ++ [match cur with | some t' => tJson t' | none => Json.str "assert"]
     pure (Json.arr outs.toArray)
+  | "st.nbatches" => do
+    let B ← nat j "B"
+    let k ← str j "kind"
+    let r ← match k with
+      | "epochs" => pure (RunLen.epochs (← nat j "v") (← nat j "n") (← nat j "W") (← bool j "dl"))
+      | "updates" => pure (RunLen.updates (← nat j "v"))
+      | "samples" => pure (RunLen.samples (← nat j "v"))
+      | _ => throw "kind"
+    pure (ofNat (nBatches B r))
   | "st.batchidx" => do
     pure (ofNat (batchIdx (← nat j "counter") (← nat j "B") (← nat j "W") (← nat j "rank")))
   | _ => throw s!"unknown op {op}"
